@@ -8,6 +8,7 @@ cleanup() { git -C /repo worktree remove --force "$D/wt" >/dev/null 2>&1; rm -rf
 trap cleanup EXIT
 git -C /repo worktree add -q --detach "$D/wt" HEAD || { echo "worktree failed"; exit 9; }
 if ! git -C "$D/wt" apply "$PATCH" 2>"$D/apply.err"; then echo "APPLY=fail $(head -2 $D/apply.err)"; exit 8; fi
+cp /repo/abacusnbody/version.py "$D/wt/abacusnbody/version.py"; cp -r /repo/abacusutils.egg-info "$D/wt/" 2>/dev/null
 echo "APPLY=ok files: $(git -C "$D/wt" diff --stat | tail -1)"
 PP="/verif/shims:/verif/.deps"
 if [ -z "${SKIP_TESTS:-}" ]; then
